@@ -301,3 +301,12 @@ func statusName(s runner.Status) string {
 	}
 	return s.String()
 }
+
+// mustMounts: probe directory read-only at /probe, dir read-write at /w, tmpfs at /tmp.
+func mustMounts(dir string) []mount.SyscallParams {
+	sp, err := mount.NewBuilder().WithBind(binDir(), "probe", true).WithBind(dir, "w", false).WithTmpfs("tmp", "").Build()
+	if err != nil {
+		panic(err)
+	}
+	return sp
+}
